@@ -34,9 +34,9 @@ extern "C" {
 }
 
 /// fd 1 points at /dev/null while alive (instruction bodies that println! must not write into the result stream)
-struct Silence { saved: i32 }
+pub struct Silence { saved: i32 }
 impl Silence {
-    fn new() -> Silence {
+    pub fn new() -> Silence {
         use std::io::Write;
         use std::os::unix::io::AsRawFd;
         let _ = std::io::stdout().flush();
